@@ -235,8 +235,33 @@ def summarize(prog, fn, models=None, opaque=()):
                     countdown = l
                     N, start = e[l], sym.C(0, ty)
                     break
+        countup, exit_val = None, None
+        if it_local is None and countdown is None:
+            # `let mut i = 0; loop { if i == n { return X } ..; i += 1 }`: a counted loop whose exhaustion test returns
+            for l in tracked:
+                ty = fn.local_ty(l)
+                if ty not in sym.INT_TYS:
+                    continue
+                L = P("L%d" % l)
+                nxt = [v for c, k, v in ps if k == "next"]
+                if not nxt or not all(v[l] == sym.binop("Add", L, sym.C(1, ty), ty) for v in nxt):
+                    continue
+                bound = None
+                for c, k, v in ps:
+                    if c and len(c[0]) == 2 and c[0][0][0] == "bin" and c[0][0][1] == "Eq" and c[0][1] is True and L in (c[0][0][2], c[0][0][3]):
+                        bound = c[0][0][3] if c[0][0][2] == L else c[0][0][2]
+                        break
+                if bound is None or L in sym.atoms(bound):
+                    continue
+                countup, I, N, start = l, L, bound, e[l]
+                eqs = (sym.binop("Eq", L, bound, ty), sym.binop("Eq", bound, L, ty))
+                for ix, (c, k, v) in enumerate(ps):
+                    if k == "return" and len(c) == 1 and c[0][0] in eqs and c[0][1] is True:
+                        ps[ix] = (c, "exit:normal", ("ret", None, v))
+                        exit_val = v
+                break
         out.append({"head": h, "body": body, "depth": depth, "entry": e, "tracked": tracked, "iter": it_local, "I": I, "N": N, "start": start,
-                    "countdown": countdown, "paths": ps, "where": fn.where(fn.term(h)["loc"])})
+                    "countdown": countdown, "countup": countup, "exit_value": exit_val, "paths": ps, "where": fn.where(fn.term(h)["loc"])})
     return out
 
 
@@ -253,6 +278,8 @@ def is_success_cond(c):
 
 def cont_cond(c, I, N):
     """the loop's own continuation test `I < N` holding"""
+    if len(c) == 2 and c[1] is False and c[0][0] == "bin" and c[0][1] == "Eq":
+        return (c[0][2], c[0][3]) in ((I, N), (N, I))          # `if i == n { leave }` not taken
     if len(c) == 2 and c[1] is True:
         return c[0] == sym.binop("Lt", I, N, c[0][4] if c[0][0] == "bin" else "usize")
     if len(c) == 3 and sym.is_c(N):
@@ -330,6 +357,8 @@ def split_cases(vals, conds=(), limit=64, _known=None, _sub=None):
 def exit_value(prog, fn, lp, models=None, opaque=()):
     """value returned by the function when the loop is left through its normal exit, as a term over the loop-carried
     atoms L<i> (inner/outer loops summarised)"""
+    if lp.get("exit_value") is not None:
+        return lp["exit_value"]            # the exhaustion test itself returns (counted `loop`)
     ev = sym.Evaluator(prog, models=models, opaque_local=OPAQUE + tuple(opaque))
     ev.summarize_loops = True
     asg = assigned_in(fn, lp["body"])
